@@ -162,7 +162,22 @@ def build(case, provider):
     for a in case["alarms"]:
         al = Alarm()
         t = a["trigger"]
-        if t is not None:
+        how = a.get("how") or "attr"
+        if t is not None and how != "attr":
+            # the other ways of giving an alarm its trigger: add() with a plain or an already typed value (which add() keeps), item
+            # assignment of a typed value followed by the RELATED setter
+            from icalendar.prop import vDuration, vDatetime, vDDDTypes
+            val = V.dec(t, provider) if t["k"] == "utc" else td(t)
+            typed = {"add-typed": (vDatetime if t["k"] == "utc" else vDuration), "item-typed": (vDatetime if t["k"] == "utc" else vDuration), "add-ddd": vDDDTypes}.get(how)
+            obj = typed(val) if typed else val
+            rel = {"RELATED": a["related"]} if a.get("related") and t["k"] != "utc" else None
+            if how == "item-typed":
+                al["TRIGGER"] = obj
+                if rel:
+                    al.TRIGGER_RELATED = a["related"]
+            else:
+                al.add("TRIGGER", obj, parameters=rel)
+        elif t is not None:
             al.TRIGGER = V.dec(t, provider) if t["k"] == "utc" else td(t)
             if a.get("related"):
                 al.TRIGGER_RELATED = a["related"]
@@ -274,6 +289,8 @@ def equal(got, want, case):
 
 def info(case):
     classes = ["path:" + case["path"], "comp:" + case["comp"]]
+    if case["path"] != "parse":
+        classes += sorted({"trigger-given-by:" + (a.get("how") or "attr") for a in case["alarms"] if a["trigger"] is not None})
     nt = False
     if case["start"] is None:
         classes.append("missing-start")
@@ -351,6 +368,7 @@ def cases(draw):
             a["trigger"] = draw(V.s_utc)
         a["repeat"] = draw(st.sampled_from([None, 0, 1, 2, 5]))
         a["duration"] = draw(st.one_of(st.none(), _dur, _dur))
+        a["how"] = draw(st.sampled_from(["attr", "attr", "add", "add-typed", "item-typed", "add-ddd"]))
         alarms.append(a)
     twin = False
     if start is not None and start["k"] in ("utc", "zoned") and draw(st.integers(0, 2)) == 0:
